@@ -384,6 +384,108 @@ theorem no_unknown_opts {A B : List (OptArg α)} (h : B.map (fun o => (o.name, o
   simp only [Bool.not_eq_true, Bool.not_eq_false', List.any_eq_true]
   exact ⟨a, ha, by simp [hae.1]⟩
 
+/-- the bounds (and the names of the optional arguments) of `s'` are those of `s` -/
+def SameBounds (s s' : State α) : Prop :=
+  s'.varB = s.varB ∧ s'.lenB = s.lenB ∧ s'.nugB = s.nugB ∧ s'.anisB = s.anisB ∧
+  s'.opt.map (fun o => (o.name, o.bnd)) = s.opt.map (fun o => (o.name, o.bnd))
+
+theorem SameBounds.refl (s : State α) : SameBounds s s := ⟨rfl, rfl, rfl, rfl, rfl⟩
+
+theorem SameBounds.trans {s1 s2 s3 : State α} (h1 : SameBounds s1 s2) (h2 : SameBounds s2 s3) : SameBounds s1 s3 :=
+  ⟨h2.1.trans h1.1, h2.2.1.trans h1.2.1, h2.2.2.1.trans h1.2.2.1, h2.2.2.2.1.trans h1.2.2.2.1,
+    h2.2.2.2.2.trans h1.2.2.2.2⟩
+
+theorem sameBounds_doSetLenScale (sp : ClassSpec α) (s : State α) (ls : List α) :
+    SameBounds s (doSetLenScale sp s ls).st := by
+  unfold doSetLenScale; split <;> exact ⟨rfl, rfl, rfl, rfl, rfl⟩
+
+theorem sameBounds_doSetAnis (sp : ClassSpec α) (s : State α) (ls : List α) :
+    SameBounds s (doSetAnis sp s ls).st := by
+  unfold doSetAnis; split <;> exact ⟨rfl, rfl, rfl, rfl, rfl⟩
+
+theorem sameBounds_doSetVar (sp : ClassSpec α) (s : State α) (v : α) :
+    SameBounds s (doSetVar sp s v).st := by
+  unfold doSetVar; split <;> exact ⟨rfl, rfl, rfl, rfl, rfl⟩
+
+theorem sameBounds_doSetRescale (sp : ClassSpec α) (s : State α) (v : Option α) :
+    SameBounds s (doSetRescale sp s v).st := by
+  unfold doSetRescale; split
+  · exact ⟨rfl, rfl, rfl, rfl, rfl⟩
+  · split <;> exact ⟨rfl, rfl, rfl, rfl, rfl⟩
+
+theorem sameBounds_doSetDim (sp : ClassSpec α) (s : State α) (d : Int) :
+    SameBounds s (doSetDim sp s d).st := by
+  unfold doSetDim; split
+  · exact ⟨rfl, rfl, rfl, rfl, rfl⟩
+  · split <;> exact ⟨rfl, rfl, rfl, rfl, rfl⟩
+
+theorem sameBounds_doSetOpt (sp : ClassSpec α) (s : State α) (n : String) (v : α) :
+    SameBounds s (doSetOpt sp s n v).st := by
+  unfold doSetOpt; split
+  · exact ⟨rfl, rfl, rfl, rfl, rfl⟩
+  · split
+    · exact ⟨rfl, rfl, rfl, rfl, rfl⟩
+    · refine ⟨rfl, rfl, rfl, rfl, ?_⟩
+      simp only [chk, List.map_map]
+      apply List.map_congr_left
+      intro o _
+      simp only [Function.comp]
+      split <;> rfl
+
+theorem sameBounds_doSetIntegralScale (sp : ClassSpec α) (s : State α) (vs : List α) :
+    SameBounds s (doSetIntegralScale sp s vs).st := by
+  unfold doSetIntegralScale
+  split
+  · exact SameBounds.refl s
+  · simp only
+    have h1 := sameBounds_doSetLenScale sp s vs
+    split
+    · exact h1
+    · have h2 := h1.trans (sameBounds_doSetLenScale sp (doSetLenScale sp s vs).st [one])
+      split
+      · exact h2
+      · split
+        · exact h2
+        · exact h2.trans (sameBounds_doSetLenScale sp _ _)
+
+/-- plain setters never touch the bounds -/
+theorem sameBounds_step (sp : ClassSpec α) (s : State α) (op : Op α) (hp : Op.plain sp op = true) :
+    SameBounds s (step sp s op).st := by
+  cases op with
+  | setDim d => exact sameBounds_doSetDim sp s d
+  | setVar v => exact sameBounds_doSetVar sp s v
+  | setVarRaw v => exact ⟨rfl, rfl, rfl, rfl, rfl⟩
+  | setNugget v => exact ⟨rfl, rfl, rfl, rfl, rfl⟩
+  | setLenScale vs => exact sameBounds_doSetLenScale sp s vs
+  | setAnis vs => exact sameBounds_doSetAnis sp s vs
+  | setAngles vs => exact ⟨rfl, rfl, rfl, rfl, rfl⟩
+  | setRescale v => exact sameBounds_doSetRescale sp s v
+  | setOpt n v => exact sameBounds_doSetOpt sp s n v
+  | setIntegralScale vs => exact sameBounds_doSetIntegralScale sp s vs
+  | setArgBounds check bs => cases hp
+  | setBoundsProp arg b => cases hp
+
+/-- plain setters that do not raise end inside all bounds (the TPL `rescale` setter is not plain) -/
+theorem step_ok_inBounds (sp : ClassSpec α) (s : State α) (op : Op α) (hp : Op.plain sp op = true)
+    (hr : ∀ v, op ≠ .setRescale v) (h : (step sp s op).err = none) : InBounds sp (step sp s op).st := by
+  cases op with
+  | setDim d => exact doSetDim_ok h
+  | setVar v => exact doSetVar_ok h
+  | setVarRaw v => exact chk_ok h
+  | setNugget v => exact chk_ok h
+  | setLenScale vs => exact doSetLenScale_ok h
+  | setAnis vs => exact doSetAnis_ok h
+  | setAngles vs => exact chk_ok h
+  | setRescale v => exact absurd rfl (hr v)
+  | setOpt n v => exact doSetOpt_ok h
+  | setIntegralScale vs => exact doSetIntegralScale_ok h
+  | setArgBounds check bs => cases hp
+  | setBoundsProp arg b => cases hp
+
+theorem mergeOpt_name_bnd (g : List (String × α)) (o : OptArg α) :
+    ((mergeOpt g o).name, (mergeOpt g o).bnd) = (o.name, o.bnd) := by
+  unfold mergeOpt; split <;> rfl
+
 end lawfree
 
 /-! ## Part 2: over a linearly ordered field -/
@@ -812,6 +914,115 @@ theorem construct_cfgOf {sp : ClassSpec F} {s : State F} (h : WF s)
   simp only [cfgOf] at hi2
   rw [hi2]
   simp only [hin]
+
+/-- class tables whose optional-argument names are distinct and whose default bounds do not depend on
+    the dimension (all shipped classes except JBessel, SuperSpherical, TPLSimple — D8) -/
+def SpecOK (sp : ClassSpec F) : Prop :=
+  (∀ d d', (sp.opts d).map (fun o => (o.name, o.bnd)) = (sp.opts d').map (fun o => (o.name, o.bnd))) ∧
+  ∀ d, ((sp.opts d).map (·.name)).Nodup
+
+theorem initVar_sameBounds {sp : ClassSpec F} {cfg : Cfg F} {s s' : State F} (h : initVar sp cfg s = .ok s') :
+    SameBounds s s' := by
+  obtain ⟨⟨v, hv⟩, _⟩ := initVar_ok h
+  subst hv
+  exact ⟨rfl, rfl, rfl, rfl, rfl⟩
+
+/-- a freshly constructed model carries the default bounds of its class -/
+theorem construct_bounds {sp : ClassSpec F} {cfg : Cfg F} {s : State F} {w : Bool}
+    (h : construct sp cfg = .ok (s, w)) :
+    ∃ d, s.varB = defVarB ∧ s.lenB = defLenB ∧ s.nugB = defNugB ∧ s.anisB = defAnisB ∧
+      s.opt.map (fun o => (o.name, o.bnd)) = (sp.opts d).map (fun o => (o.name, o.bnd)) := by
+  unfold construct at h
+  simp only at h
+  split at h
+  · cases h
+  · rename_i d w1 hdim
+    refine ⟨d, ?_⟩
+    split at h
+    · cases h
+    · split at h
+      · cases h
+      · split at h
+        · cases h
+        · split at h
+          · cases h
+          · split at h
+            · cases h
+            · split at h
+              · cases h
+              · rename_i s1 hs1
+                have hb1 := initVar_sameBounds hs1
+                split at h
+                · cases h
+                · split at h
+                  · cases h
+                  · rename_i s3 hs3
+                    have hb3 := initVar_sameBounds hs3
+                    split at h
+                    · cases h
+                    · injection h with h
+                      injection h with h _
+                      subst h
+                      have hb2 : SameBounds s1 (match cfg.integralScale with
+                          | none => (⟨s1, none, false⟩ : Res F)
+                          | some v => doSetIntegralScale sp s1 v).st := by
+                        split
+                        · exact SameBounds.refl s1
+                        · exact sameBounds_doSetIntegralScale sp s1 _
+                      obtain ⟨e1, e2, e3, e4, e5⟩ := (hb1.trans hb2).trans hb3
+                      refine ⟨e1, e2, e3, e4, ?_⟩
+                      rw [e5]
+                      simp only [List.map_map]
+                      apply List.map_congr_left
+                      intro o _
+                      exact mergeOpt_name_bnd _ o
+
+theorem checkArgBounds_rescale {sp : ClassSpec F} (htpl : sp.tpl = false) (s : State F) (r : F) :
+    checkArgBounds sp ({ s with rescale := r } : State F) = checkArgBounds sp s := by
+  simp only [checkArgBounds, argList, var, varFactor, htpl, Bool.false_eq_true, if_false]
+
+theorem varFactor_nontpl {sp : ClassSpec F} (htpl : sp.tpl = false) (s : State F) : varFactor sp s = 1 := by
+  simp [varFactor, htpl, one_eq]
+
+/-- what holds in every state reached by a history of plain setters none of which raised
+    (classes without variance factor, dimension-independent bounds) -/
+theorem reachOk_invariants {sp : ClassSpec F} (hsp : SpecOK sp) (htpl : sp.tpl = false) {s : State F}
+    (h : ReachOk sp s) : WF s ∧ checkArgBounds sp s = none ∧ DefaultBounds sp s := by
+  induction h with
+  | init hc =>
+    obtain ⟨hw, hin⟩ := construct_ok hc
+    obtain ⟨d, e1, e2, e3, e4, e5⟩ := construct_bounds hc
+    refine ⟨hw, hin, e1, e2, e3, e4, e5.trans (hsp.1 _ _), ?_⟩
+    rename_i cfg s1 w1
+    have : List.map (fun o : OptArg F => o.name) s1.opt = List.map (fun o : OptArg F => o.name) (sp.opts d) := by
+      have := congrArg (List.map Prod.fst) e5
+      simpa [List.map_map, Function.comp] using this
+    rw [this]; exact hsp.2 d
+  | @step s0 op _ hp herr ih =>
+    obtain ⟨hw, hin, hdb⟩ := ih
+    have hw' := wf_step sp op hw
+    obtain ⟨e1, e2, e3, e4, e5⟩ := sameBounds_step sp s0 op hp
+    have hdb' : DefaultBounds sp (step sp s0 op).st := by
+      obtain ⟨d1, d2, d3, d4, d5, d6⟩ := hdb
+      refine ⟨e1.trans d1, e2.trans d2, e3.trans d3, e4.trans d4, (e5.trans d5).trans (hsp.1 _ _), ?_⟩
+      have : List.map (fun o : OptArg F => o.name) (step sp s0 op).st.opt
+          = List.map (fun o : OptArg F => o.name) s0.opt := by
+        have := congrArg (List.map Prod.fst) e5
+        simpa [List.map_map, Function.comp] using this
+      rw [this]; exact d6
+    refine ⟨hw', ?_, hdb'⟩
+    by_cases hr : ∃ v, op = .setRescale v
+    · obtain ⟨v, rfl⟩ := hr
+      simp only [step, doSetRescale] at herr ⊢
+      split at herr
+      · cases herr
+      · split at herr
+        · cases herr
+        · rename_i x hx hne
+          simp only [if_neg hne]
+          rw [checkArgBounds_rescale htpl]; exact hin
+    · exact (checkArgBounds_eq_none_iff sp _).mpr
+        (step_ok_inBounds sp s0 op hp (fun v hv => hr ⟨v, hv⟩) herr)
 
 end field
 
